@@ -949,6 +949,16 @@ class Runner:
             oa = '(OByName %s)' % COQ_O[o]
             oname = o
         log = tr.take()
+        # objects that died INSIDE this set_backend call before the round reached them (constructing a jax backend of the other precision flips
+        # jax_enable_x64, which drops jax's jit caches and with them the fitted models they pinned): the model gets their Delete before the switch.
+        # Evidence: the weak reference is dead now and none of the tree's callbacks was invoked in this round.
+        called = {e[1] for e in log if e[0] == 'pre'}
+        for rec in list(tr.roots):
+            if not tr.alive(rec['root']) and not (set(rec['serials']) & called):
+                tr.roots.remove(rec)
+                self.mops.append('Delete %d' % rec['stamp'])
+                self.expect.append(dict(op='delete', raw=None))
+                self.stats['deletes'] += 1
         self.stats['switches'] += 1
         self.stats['tl_changes'] += (b, p) != self.cur[:2]
         self.cur = (b, p, oname)
@@ -993,7 +1003,7 @@ class Runner:
                                           what='a deleted object stays alive: the events registry holds %d non-weak references (%s)' % (len(strong), strong[0])))
         self._stamp_raw()
 
-    def op_eval(self, hid, arg=None, fit=False):
+    def op_eval(self, hid, arg=None, fit=False, data_as='list'):
         """evaluate the handle's object against a freshly built twin under the current backend"""
         import pyhf
         tr = self.tr
@@ -1037,7 +1047,7 @@ class Runner:
         # internal diagnostics: cached attributes of old and fresh objects carry the same tensor types
         diag = attr_diag(tr, e, te)
         if fit and h['kind'] == 'model' and not h['batch']:
-            self._fit(h, obj, twin)
+            self._fit(h, obj, twin, data_as)
         del twin, te, troots
         self._account_deaths()
         self._stamp_raw()
@@ -1056,7 +1066,11 @@ class Runner:
             self.mops.append('EvalAll')
             self.expect.append(dict(op='eval', raw=None))
 
-    def _fit(self, h, obj, twin):
+    def _fit(self, h, obj, twin, data_as='list'):
+        """inference on the object built earlier versus on a freshly built one, under the now-current backend: best-fit parameters, twice_nll,
+        tensor type and dtype.  data_as: the observations handed to mle.fit as a plain python list (as in the documentation) or as a tensor of
+        the current backend.  Both fits run the same deterministic optimiser from the same start, so at 64b they have to agree to 64b accuracy
+        (1e-9 relative on twice_nll; a compiled objective left over from a 32b setting misses that at ~1e-6)."""
         import numpy as np
         import pyhf
         self.stats['fits'] += 1
@@ -1064,22 +1078,27 @@ class Runner:
         res = []
         for m in (obj, twin):
             try:
-                r = pyhf.infer.mle.fit(data, m, return_fitted_val=True)
+                d = list(data) if data_as == 'list' else pyhf.tensorlib.astensor(data)
+                r = pyhf.infer.mle.fit(d, m, return_fitted_val=True)
                 res.append(('ok', np.asarray(pyhf.tensorlib.tolist(r[0]), dtype=float), float(np.asarray(pyhf.tensorlib.tolist(r[1])).ravel()[0]),
-                            type(r[0])))
+                            type(r[0]), str(getattr(r[0], 'dtype', '')) + '/' + str(getattr(r[1], 'dtype', ''))))
             except Exception as ex:   # noqa
-                res.append((core.exc_enum(ex), None, None, None))
+                res.append((core.exc_enum(ex), None, None, None, None))
         a, b = res
-        what = dict(handle=h, backend=list(self.cur))
+        what = dict(handle=h, backend=list(self.cur), data_as=data_as)
         t = 1e-6 if self.cur[1] == '64b' else 2e-2
+        tn = 1e-9 if self.cur[1] == '64b' else 2e-2
         if a[0] != b[0]:
             self.problems.append(dict(sig='fit-differs:outcome', what='fit on the old model: %s, on a fresh one: %s' % (a[0], b[0]), detail=what))
         elif a[0] == 'ok':
             if a[3] is not b[3]:
                 self.problems.append(dict(sig='fit-differs:type', what='fit result types differ %s / %s' % (a[3], b[3]), detail=what))
-            if not np.allclose(a[1], b[1], rtol=t, atol=t) or not np.isclose(a[2], b[2], rtol=t, atol=t):
-                self.problems.append(dict(sig='fit-differs:value', what='fit on the old model gives %r (nll %r), on a fresh one %r (nll %r)' % (
-                    a[1].tolist(), a[2], b[1].tolist(), b[2]), detail=what))
+            elif a[4] != b[4]:
+                self.problems.append(dict(sig='fit-differs:dtype', what='fit on the old model returns dtype %s (bestfit/twice_nll), on a fresh one %s, under %s/%s'
+                                          % (a[4], b[4], self.cur[0], self.cur[1]), detail=what))
+            if not np.allclose(a[1], b[1], rtol=t, atol=t) or not np.isclose(a[2], b[2], rtol=tn, atol=tn):
+                self.problems.append(dict(sig='fit-differs:value', what='fit on the old model gives %r (twice_nll %r), on a fresh one %r (twice_nll %r), under %s/%s' % (
+                    a[1].tolist(), a[2], b[1].tolist(), b[2], self.cur[0], self.cur[1]), detail=what))
 
     def _assign(self, t):
         """heap ids as Events.create allocates them (checked afterwards against the EvSub events Coq reports)"""
@@ -1161,6 +1180,26 @@ def gen_history(rng, n_ops, backends, fit_prob=0.5):
     return ops
 
 
+def fit_switch_history(rng, b, first, short=False):
+    """inference on ONE live model before and after switches: created and fitted under (b, first), then a precision-only switch on the same
+    backend name and a fit, then back and a fit, then another backend and back with a fit each - every fit on the old object is compared with
+    the fit of a freshly built model under the now-current backend; the observations go in as a plain list and as a tensor alternately"""
+    other = '32b' if first == '64b' else '64b'
+    h = gen_handle(rng, 'model')
+    h['batch'] = None
+    h['spec'] = rng.choice([k for k in sorted(SPECS) if k != 'normonly'] or sorted(SPECS))
+    o = rng.choice(OPTS)
+    ops = [dict(op='set_backend', b=b, p=first, o=o), dict(op='create', hid=0, h=h), dict(op='eval', hid=0, arg=None, fit=True, data_as='list')]
+    stops = [(b, other), (b, first)]
+    if not short:
+        b2 = rng.choice([x for x in BACKENDS if x != b])
+        stops += [(b, other), (b2, rng.choice(PRECS)), (b, first)]
+    for k, (bb, pp) in enumerate(stops):
+        ops.append(dict(op='set_backend', b=bb, p=pp, o=o if k % 2 == 0 else 'current'))
+        ops.append(dict(op='eval', hid=0, arg=None, fit=True, data_as='list' if k % 2 == 0 else 'tensor'))
+    return ops
+
+
 def tour_history(rng, settings, kinds):
     """every kind of object built under the first setting, then carried through all the others and evaluated at each stop"""
     ops = [dict(op='set_backend', b=settings[0][0], p=settings[0][1], o='scipy')]
@@ -1215,7 +1254,7 @@ def run_history(tr, ops):
             elif o['op'] == 'delete':
                 R.op_delete(o['hid'])
             elif o['op'] == 'eval':
-                d = R.op_eval(o['hid'], o.get('arg'), fit=o.get('fit', False))
+                d = R.op_eval(o['hid'], o.get('arg'), fit=o.get('fit', False), data_as=o.get('data_as', 'list'))
                 if d:
                     diags.append(dict(op=o, diag=d[:4]))
         except Exception as ex:   # noqa
@@ -1397,13 +1436,27 @@ def run(ctx):
     except facts.TieBroken as e:
         tie = 'fact extraction failed: %s' % e
     if tie is None:
+        # tie to the source: pyhf/events.py and tensor/manager.py:set_backend translated to coq/gen/EventsGen.v (harness/props/c11_tie.py)
+        try:
+            from harness.props import c11_tie
+            ctx.coverage['translated_from_source'] = c11_tie.extract(ctx)
+        except facts.TieBroken as e:
+            tie = ('translation of pyhf/events.py / pyhf/tensor/manager.py:set_backend to Gallina failed (harness/props/c11_tie.py; the code no longer has '
+                   'the shape the model of coq/Events.v transcribes): %s' % e)
+            core.coq_make(['EventsRun.vo', 'gen/FactsC11.vo'])
+    if tie is None:
         ok, txt = core.prove(ctx)
         if not ok:
-            tie = 'proof obligations of props/C11.v no longer check: ' + txt[-1500:]
+            why = ('the functions translated from pyhf/events.py / tensor/manager.py no longer coincide with the hand model (coq/TieEvents.v, '
+                   'C11_source_is_model_*): ' if ('TieEvents' in txt or 'source_is_model' in txt or 'EventsGen' in txt) else 'proof obligations of props/C11.v no longer check: ')
+            tie = why + txt[-1500:]
         rc, out, _ = core.coq_make(['EventsRun.vo', 'gen/FactsC11.vo'])
         if rc != 0:
             tie = tie or ('coq/EventsRun.v / gen/FactsC11.v do not build: ' + out[-800:])
-    ctx.trusted += ['harness/props/c11.py:extract (python ast -> FactsC11.v): a syntactic over-approximation of which attributes hold backend tensors, '
+    ctx.trusted += ['harness/props/c11_tie.py + harness/props/tie_translate.py / tie_translate_x4.py (python ast -> Gallina for Callables.append/_flush/__call__, '
+                    'subscribe, trigger, disable, enable, register and set_backend; fail closed; the reading of weak references, of the retrievers and of the '
+                    'module-level state is stated in coq/gen/EventsGen.v): C11_source_is_model_* prove the translated definitions equal to the hand model',
+                    'harness/props/c11.py:extract (python ast -> FactsC11.v): a syntactic over-approximation of which attributes hold backend tensors, '
                     'which are refreshed by _precompute, which are read at evaluation, and of the statement order in __init__/set_backend',
                     'Python garbage collector and weakref: an object is taken to be collected when a harness-side weak reference to it is dead '
                     '(modelled as an explicit Delete at that point)',
@@ -1439,6 +1492,11 @@ def run(ctx):
     order = list(settings)
     rng.shuffle(order)
     hists.append(('tour', tour_history(rng, order if not ctx.quick else order[:5], all_kinds(rng))))
+    # inference before and after switches on the same live model (precision-only switches in both directions): jax and one other backend in quick
+    fit_backends = ['jax', rng.choice([x for x in backends if x != 'jax'])] if ctx.quick else list(backends)
+    for fb in fit_backends:
+        for first in (PRECS if (fb == 'jax' or not ctx.quick) else [rng.choice(PRECS)]):
+            hists.append(('fit-switch:%s:%s' % (fb, first), fit_switch_history(rng, fb, first, short=ctx.quick)))
     nh = int(os.environ.get('VERIF_C11_HISTORIES', 0)) or ctx.n(32, 150)
     maxlen = ctx.n(12, 40)
     for k in range(nh):
@@ -1497,7 +1555,9 @@ def run(ctx):
     ctx.coverage.update(
         evaluations=stats['evals'], distinct_nontrivial=len(sigs),
         rule='histories: one tour (every kind of object built under one setting and evaluated under the others) + random histories of '
-             '4..%d operations (set_backend 38%%, create 28%%, delete 10%%, evaluate 24%%, all live objects evaluated at the end, one fit); '
+             '4..%d operations (set_backend 38%%, create 28%%, delete 10%%, evaluate 24%%, all live objects evaluated at the end, one fit) + fit/switch/fit '
+             'sequences (one live model fitted before and after precision-only switches in both directions and after a round trip through another backend, '
+             'data as a list and as a tensor; old object vs fresh model: bestfit 1e-6, twice_nll 1e-9 at 64b, dtype); '
              'an evaluation = old object vs freshly built twin under the current backend (values, tensor type, dtype); non-trivial = an evaluation '
              'that follows at least one set_backend; distinct by (current setting, last six preceding non-evaluation operations, evaluated object)' % maxlen,
         histories=len(hists), model_operations_replayed_in_coq=nmodel_ops, settings_visited=sorted('/'.join(v) for v in visited),
